@@ -56,8 +56,17 @@ def to_argv (spec, with_sources = True):
     for g in spec ['geo']:
         tag = [] if g.get ('tag') is None else [str (int (g ['tag']))]
         if g ['k'] == 'w':
-            v = tag + [str (int (g ['n']))] + [fl (x) for x in g ['p1']] \
-              + [fl (x) for x in g ['p2']] + [fl (g ['r'])]
+            p1, p2 = list (g ['p1']), list (g ['p2'])
+            zn = spec.get ('znoise')
+            if zn and spec.get ('media') is not None:
+                # a ground end that is zero only up to rounding (coordinates that come out of a computation):
+                # far inside the matching tolerance, the reference geometry keeps the exact zero
+                if p1 [2] == 0:
+                    p1 [2] = zn
+                if p2 [2] == 0:
+                    p2 [2] = -zn if zn < 1e-15 else zn
+            v = tag + [str (int (g ['n']))] + [fl (x) for x in p1] \
+              + [fl (x) for x in p2] + [fl (g ['r'])]
             a += ['-w', ','.join (v)]
         elif g ['k'] == 'a':
             v = tag + [str (int (g ['n'])), fl (g ['radius']), fl (g ['a1']), fl (g ['a2']), fl (g ['r'])]
@@ -461,12 +470,16 @@ def fam_free (rng, fam = None, seg_hi = 1 / 21., seg_lo = 1 / 100., nmax = 60, e
     """ free-space structure family; returns spec (geo + feeds list of
         candidate feed locations (at, dir)) without sources
     """
-    fams = ['dipole', 'vee', 'L', 'zig', 'star3', 'star4', 'loop', 'yagi', 'T', 'tdip']
+    fams = ['dipole', 'vee', 'L', 'zig', 'star3', 'star4', 'loop', 'yagi', 'T', 'tdip', 'step']
     fam  = fam or str (rng.choice (fams))
     f, lam, segl, rad = pick_scale (rng, seg_lo, seg_hi)
     R = rot_matrix (rng)
     T = rng.uniform (-1, 1, 3) * lam * float (rng.choice ([0, 0, 1, 10]))
     if not shift:
+        T = T * 0
+    if fam == 'step':
+        # along a coordinate axis from the origin: the segment lengths of the parts are equal bit by bit
+        R = np.eye (3) [rng.permutation (3)] * float (rng.choice ([1, -1]))
         T = T * 0
     P = lambda v: R @ np.asarray (v, float) + T
     geo, feeds = [], []
@@ -486,6 +499,21 @@ def fam_free (rng, fam = None, seg_hi = 1 / 21., seg_lo = 1 / 100., nmax = 60, e
             geo [-1]['taper'] = [int (rng.choice ([1, 2, 3])), None, None]
             geo [-1]['tag'] = 1
             feeds [:] = []
+    elif fam == 'step':
+        # straight conductor of two or three collinear wires with the same segment length and different radii
+        # (a tube continued by a whip), each part in either direction
+        n  = int (rng.integers (3, 10))
+        L  = n * segl
+        k  = int (rng.integers (2, 4))
+        rr = [min (rad * float (x), segl / 8.5) for x in rng.choice ([1, 0.3, 2.5, 0.1], size = k, replace = False)]
+        if rng.random () < 0.5:
+            # a fat tube (3 .. 8.5 radii per segment: outside the thin-wire rules, checks that rely on them discard it)
+            rr [int (rng.integers (0, k))] = segl / float (rng.uniform (3, 8.5))
+        for i in range (k):
+            a, b = [i * L, 0, 0], [(i + 1) * L, 0, 0]
+            if rng.random () < 0.3:
+                a, b = b, a
+            add (n, a, b, rr [i])
     elif fam == 'vee':
         n1, n2 = int (rng.integers (3, 12)), int (rng.integers (3, 12))
         ang = np.radians (rng.uniform (45, 180))
@@ -620,6 +648,9 @@ def fam_ground (rng, fam = None, seg_hi = 1 / 21., seg_lo = 1 / 100., media = 'i
             add (nn, [0, 0, h], np.array ([0, 0, h]) + v * nn * segl, rev = bool (rng.random () < 0.5))
     med = [[0, 0, 0]] if media == 'ideal' else media
     spec = dict (f = f, geo = geo, fam = fam, media = med, feeds = feeds, src = [], loads = [])
+    zn = float (np.random.default_rng ([int (f * 1000), len (geo), int (1e6 * rad / lam)]).choice ([0, 0, 0, 2.8e-17, 5.6e-17, 1e-13]))
+    if zn:
+        spec ['znoise'] = zn
     return spec
 # end def fam_ground
 
@@ -656,7 +687,7 @@ def curve_spec (rng):
     return spec if spec ['feeds'] else None
 # end def curve_spec
 
-def taper_some (rng, spec, prob, kind = None):
+def taper_some (rng, spec, prob, kind = None, min_radii = None):
     """ taper wires (default limits) that carry no source or load placed by location """
     marks = [np.array (x ['at']) for x in (spec.get ('src') or []) + (spec.get ('loads') or []) if 'at' in x]
     n = 0
@@ -666,7 +697,7 @@ def taper_some (rng, spec, prob, kind = None):
             d  = p2 - p1
             on = any (np.linalg.norm (np.cross (d, x - p1)) < 1e-9 * (d @ d) and -1e-9 <= (x - p1) @ d / (d @ d) <= 1 + 1e-9 for x in marks)
             if not on:
-                g ['taper'] = [int (rng.integers (1, 4)) if kind is None else kind, None, None]
+                g ['taper'] = [int (rng.integers (1, 4)) if kind is None else kind, (None if min_radii is None else float (min_radii * g ['r'])), None]
                 n += 1
     if n:
         order, tg = __import__ ('pmv.oracles.georef', fromlist = ['x']).object_tags (spec ['geo'])
